@@ -371,6 +371,18 @@ void coefficient_gcd(const lp_polynomial_context_t* ctx, coefficient_t* gcd, con
 
   assert(ctx->K == lp_Z);
 
+  if (coefficient_is_zero(ctx, C1) || coefficient_is_zero(ctx, C2)) {
+    // gcd(0, C) = C up to sign (reducing C to its content below would lose the polynomial part)
+    coefficient_t result;
+    coefficient_construct_copy(ctx, &result, coefficient_is_zero(ctx, C1) ? C2 : C1);
+    if (coefficient_lc_sgn(ctx, &result) < 0) {
+      coefficient_neg(ctx, &result, &result);
+    }
+    coefficient_swap(&result, gcd);
+    coefficient_destruct(&result);
+    return;
+  }
+
   int cmp_type = coefficient_cmp_type(ctx, C1, C2);
 
   if (cmp_type < 0) {
